@@ -64,6 +64,8 @@ def render_derive(inp):
         "rx_cb_neg": '#[regex("[a-c]+", %s)]' % ("|lex| -(lex.slice().len() as i64)" if shape == "field1" else "|lex| !lex.slice().is_empty()"),
         "rx_cb_ref_tuple": '#[regex("[a-c]+", %s)]' % ("|_| &(1u8, 2u8)" if shape == "field1" else "|_| *&true"),
         "rx_cb_closure_call": '#[regex("[a-c]+", %s)]' % ("|lex| (|n: usize| n as u32 + 1)(lex.slice().len())" if shape == "field1" else "|lex| (|n: usize| n > 0)(lex.slice().len())"),
+        "rx_cb_ret_type": '#[regex("[a-c]+", %s)]' % ("|lex| -> usize { lex.slice().len() }" if shape == "field1" else "|_| -> bool { true }"),
+        "cb_garbage_label": '#[token("x", :: [ ? X ])]',
         "rx_nonutf8": '#[regex(b"\\xff+")]',
         "tok_b80_icase": '#[token(b"\\x80", ignore(case))]',
         "tok_b7f80_icase": '#[token(b"k\\x7f\\x80\\x81", ignore(case))]',
@@ -110,6 +112,9 @@ def render_derive(inp):
         "skip_lit_tail": ['#[logos(skip " " priority = 3)]'], "skip_lit_tail_lit": ['#[logos(skip " " "x")]'],
         "sub_unbalanced": ['#[logos(subpattern ub = "a)|(b")]'], "sub_flag_cut": ['#[logos(subpattern ub = "a)(?i")]'],
         "dup_error_cb": ["#[logos(error(MyErr, callback = |_| MyErr, callback = |_| MyErr))]"],
+        "extras_empty": ["#[logos(extras = )]"], "error_empty": ["#[logos(error = )]"], "crate_literal": ["#[logos(crate = 3)]"],
+        "dup_crate": ["#[logos(crate = ::logos, crate = logos)]"],
+        "gen_type_chain": ["#[logos(type T = Vec<U>, type U = u32)]"], "gen_type_self": ["#[logos(type T = Vec<T>)]"],
         "error_cb_tuple": ["#[logos(error((usize, usize), callback = |lex| (lex.span().start, lex.span().end)))]"],
         "error_cb_match_tail": ["#[logos(error(usize, callback = |lex| match lex.span().start { 0 => 1usize, _ => 2usize } + 10))]"],
         "gen_lt": [], "gen_two_lt_attr": ["#[logos(lifetime = 'a)]"], "gen_lt_none": ["#[logos(lifetime = none)]"],
@@ -120,6 +125,7 @@ def render_derive(inp):
     GEN = {"gen_lt": ("<'a>", "&'a str", None), "gen_two_lt_attr": ("<'a, 'b>", "&'a str", "&'b u8"), "gen_lt_none": ("<'a>", None, "&'a u8"),
            "gen_type_ok": ("<T>", "T:|_| 1u32", None), "gen_type_lt_order": ("<'a, T>", "T:|lex| lex.slice()", "&'a u8"),
            "gen_two_lt_no_attr": ("<'a, 'b>", "&'a str", "&'b u8"), "gen_lt_undeclared": ("<'a>", "&'a str", None), "gen_lt_dup": ("<'a>", "&'a str", None),
+           "gen_type_chain": ("<T, U>", "T:|_| Vec::new()", None), "gen_type_self": ("<T>", "T:|_| Vec::new()", None),
            "gen_type_missing": ("<T>", "T:|_| 1u32", None), "gen_type_undeclared": ("", None, None), "gen_type_dup": ("<T>", "T:|_| 1u32", None)}
     FIELD_TY = {"rx_cb_tuple_only": "(%s, u8)" % slice_ty, "rx_cb_unit_parens": "u32", "rx_cb_match_only": "u32", "rx_cb_match_tail": "u32", "rx_cb_if_only": "u32",
                 "rx_cb_if_tail": "u32", "rx_cb_match_method": "u32", "rx_cb_unsafe_only": "u32", "rx_cb_neg": "i64", "rx_cb_ref_tuple": "&'static (u8, u8)", "rx_cb_closure_call": "u32"}
@@ -243,6 +249,23 @@ def rustc_derive(cases, name):
     return out
 
 
+def isolated_strip(src):
+    """generate() on one source in its own process: {"panic", "errors"} or {"died": why}"""
+    import tempfile
+    gen = build_gen()
+    with tempfile.TemporaryDirectory(dir=workdir()) as d:
+        inp, outp = os.path.join(d, "in.ndjson"), os.path.join(d, "out.ndjson")
+        with open(inp, "w") as f:
+            f.write(json.dumps({"id": "iso", "src": src}) + "\n")
+        try:
+            p = subprocess.run([gen, "strip", inp, outp], capture_output=True, text=True, timeout=300)
+        except subprocess.TimeoutExpired:
+            return {"died": "no result after 300 s"}
+        if os.path.exists(outp) and os.path.getsize(outp):
+            return json.loads(open(outp).readline())
+        return {"died": "exit %s: %s" % (p.returncode, p.stderr.strip()[-200:])}
+
+
 def derive_run(tier, seed):
     t0 = time.time()
     res = run_tlc("Derive.tla", "Derive.cfg", {}, workers=4, metaname="derive")
@@ -261,12 +284,29 @@ def derive_run(tier, seed):
         recs_run = keep
     else:
         recs_run = recs
+    # inputs on which the unrepaired derive does not return (unbounded recursion: the process dies of a stack overflow,
+    # which catch_unwind cannot turn into data) are run one process per case; a seeded sample of them is enough
+    crashy = [r for r in recs_run if r["inp"]["enum"] == "gen_type_self"]
+    recs_run = [r for r in recs_run if r["inp"]["enum"] != "gen_type_self"]
+    crashy = [r for r in crashy if r["inp"]["second"] == "none" and r["inp"]["attr"] in ("tok_ok", "rx_cb_ok", "no_attr")][:6]
     items = []
     for k, r in enumerate(recs_run):
         items.append({"id": "dv%d" % k, "src": render_derive(r["inp"])})
     outs = gen_strip(items, "derive")
     findings = []
     n_acc = n_rej = 0
+    for r in crashy:
+        inp = r["inp"]
+        key = "%s/%s/%s/%s" % (inp["shape"], inp["attr"], inp["enum"], inp["second"])
+        o = isolated_strip(render_derive(inp))
+        if o.get("died"):
+            findings.append({"key": "derive:crash:" + key, "what": "the derive did not return (library entry point, own process): %s" % o["died"][:200], "source": render_derive(inp), "input": inp})
+        elif o["panic"]:
+            findings.append({"key": "derive:panic:" + key, "what": "the derive panicked (library entry point): %s" % o["panic"][:200], "source": render_derive(inp), "input": inp})
+        elif (not o["errors"]) != (r["verdict"] == "accept"):
+            findings.append({"key": "derive:verdict:" + key, "what": "specification says %s, derive %s: %s" % (r["verdict"], "accepted" if not o["errors"] else "rejected", key), "source": render_derive(inp), "input": inp})
+        else:
+            n_rej += 1
     for r, it, o in zip(recs_run, items, outs):
         inp = r["inp"]
         key = "%s/%s/%s/%s" % (inp["shape"], inp["attr"], inp["enum"], inp["second"])
